@@ -53,7 +53,9 @@ fn array_len(name: &str) -> Option<usize> {
 
 fn c12_case(u: &U, it: &C12Item, st: &mut Stats) {
     let key = format!("c12:{}#{}", it.elem_rust, it.idx);
-    let containers = spec::c12_containers(&it.elem_rust);
+    // u8 elements: Vec<u8> and [u8; N] are byte containers with their own form (c12_bytes); the
+    // other containers of u8 are ordinary sequences and interchangeable among themselves
+    let containers: Vec<String> = spec::c12_containers(&it.elem_rust).into_iter().filter(|c| it.elem_rust != "u8" || !(c.starts_with("Vec<") || c.starts_with('['))).collect();
     let n = it.xs.len();
     let seq_val = Val::Seq(it.xs.clone());
     // encodings: every source container that can hold the list, plus the slice, plus the
@@ -212,6 +214,60 @@ fn c12_maps(u: &U, st: &mut Stats) {
     }
 }
 
+/// many sequences in one stream: an outer sequence of N one-element sequences, every combination
+/// of size forms by level, read as every nested container. What a decoder keeps per sequence
+/// (counters, depth, scratch) must not add up over siblings.
+fn c12_many(u: &U, st: &mut Stats, thorough: bool) {
+    let targets = [
+        "Vec<Vec<String>>",
+        "Vec<std::collections::LinkedList<String>>",
+        "std::collections::BTreeSet<Vec<String>>",
+        "std::collections::BTreeSet<std::collections::LinkedList<String>>",
+    ];
+    let model_ty = Ty::Seq(SeqKind::Vec, Box::new(Ty::Seq(SeqKind::Vec, Box::new(Ty::Str))));
+    let mut sizes = vec![2usize, 127, 128, 129, 300];
+    if thorough {
+        sizes.extend([1000, 5000]);
+    }
+    for n in sizes {
+        let v = Val::Seq((0..n).map(|i| Val::Seq(vec![Val::Str(format!("{i:05}"))])).collect());
+        // forms by level: (outer unknown?, inner unknown?) plus alternating inner forms
+        let mut shapes: Vec<(String, Vec<bool>)> = Vec::new();
+        for (name, outer, inner) in [("known/known", false, false), ("known/unknown", false, true), ("unknown/known", true, false), ("unknown/unknown", true, true)] {
+            let mut f = vec![outer];
+            f.extend(std::iter::repeat(inner).take(n));
+            shapes.push((name.to_string(), f));
+        }
+        let mut alt = vec![false];
+        alt.extend((0..n).map(|i| i % 2 == 0));
+        shapes.push(("known/alternating".into(), alt));
+        for (shape, flags) in shapes {
+            let key = format!("c12many:{n}:{shape}");
+            let (b, _) = ref_encode_forms(&model_ty, &v, Forms { seq_unknown: flags, ..Default::default() }).expect("model");
+            let mut input = b.b.clone();
+            input.push(0xee);
+            for t in targets {
+                let e = u.get(t);
+                st.states += 1;
+                st.transitions += 1;
+                st.validated += 1;
+                let d = (e.dec_ctx)(&input);
+                let ok = matches!(&d.out, Out::Ok(g) if canon(&e.ty, g) == canon(&e.ty, &v)) && d.rest.as_deref() == Some(&[0xee][..]);
+                if !ok {
+                    st.violate(
+                        format!("C12 many-sequences forms={shape} target={t} outcome={}", d.out.class()),
+                        key.clone(),
+                        json!({"outer_elements": n, "forms(outer/inner)": shape, "result": format!("{:?}", d.out).chars().take(200).collect::<String>()}),
+                    );
+                    return;
+                }
+                st.bump("many-sequences");
+                st.nontrivial += 1;
+            }
+        }
+    }
+}
+
 fn c12_bytes(u: &U, st: &mut Stats) {
     let cs = spec::c12_byte_containers();
     for n in 0..=3usize {
@@ -278,7 +334,9 @@ pub fn run_c12(tier: &str, only: Option<String>) -> i32 {
     let mut run = Run::new("C12", tier, "model_checking", only);
     let u = common::load();
     let mut items = Vec::new();
-    for (rust, ty) in spec::c12_elements() {
+    let mut elements = spec::c12_elements();
+    elements.push(("u8", Ty::U8));
+    for (rust, ty) in elements {
         let elems: Vec<Val> = if ty == Ty::Unit {
             vec![Val::Unit]
         } else {
@@ -293,13 +351,22 @@ pub fn run_c12(tier: &str, only: Option<String>) -> i32 {
     }
     let stats = par_items(&items, Some(bridge::rt::hang_limit()), &|_| {}, &|it: &C12Item, st: &mut Stats| c12_case(&u, it, st));
     run.stats = stats;
-    if run.only.is_none() {
+    {
+        // replay keys of these three families select the whole family
+        let want = |p: &str| run.only.as_ref().map(|k| k.starts_with(p)).unwrap_or(true);
         let mut st = Stats::default();
-        c12_maps(&u, &mut st);
-        c12_bytes(&u, &mut st);
+        if want("c12map:") {
+            c12_maps(&u, &mut st);
+        }
+        if want("c12bytes:") {
+            c12_bytes(&u, &mut st);
+        }
+        if want("c12many:") {
+            c12_many(&u, &mut st, run.thorough());
+        }
         run.stats.merge(st);
     }
-    run.rule = "element types {u16, String, Option<u8>, (u8,u8), ()} x all lists of length <= 3 over 3-value domains x every source (Vec, slice, [T;len], LinkedList, HashSet, BTreeSet, reference-built unknown-size and known-size forms) x every target container, each decode followed by a sentinel byte; maps: Vec<(K,V)> / HashMap / BTreeMap pairwise incl. unknown-size form; byte containers Vec<u8> / [u8] / [u8;N] / Bytes pairwise; non-trivial = source and target container differ".into();
+    run.rule = "element types {u16, String, Option<u8>, (u8,u8), ()} x all lists of length <= 3 over 3-value domains x every source (Vec, slice, [T;len], LinkedList, HashSet, BTreeSet, reference-built unknown-size and known-size forms) x every target container, each decode followed by a sentinel byte; maps: Vec<(K,V)> / HashMap / BTreeMap pairwise incl. unknown-size form; byte containers Vec<u8> / [u8] / [u8;N] / Bytes pairwise; u8 elements among LinkedList / HashSet / BTreeSet; streams of 2..300 (thorough 5 000) sibling sequences in every combination of size forms by level, read as four nested containers; non-trivial = source and target container differ".into();
     run.bounds = json!({"list_length": "<= 3", "element_domain": 3});
     run.finish()
 }
@@ -507,6 +574,39 @@ fn c16_case(it: &C16Item, st: &mut Stats, thorough: bool, frames_out: &std::sync
             }
         }
     }
+    // the block written by a user codec (`id ++ block ++ tail`) that is a field of a record: the
+    // frame must sit where the field's bytes go (plain record, chunk 0 and chunk 1 of an evolved
+    // record) and the data around it must be unaffected
+    if d.len() <= 4096 {
+        use bridge::tables::{decode_at, encode_at, frame_at, Zipped, GRAPH_PLACES};
+        let mut frame: Vec<u8> = Vec::new();
+        if !guarded(|| frame.write_compressed(d, Default::default())).0.is_ok() {
+            bad(st, "write-fails", json!({"sink": "Vec", "level": "default"}));
+            return;
+        }
+        let z = Zipped { id: 9, payload: d.clone(), tail: 0xbeef };
+        let inner = [&[9u8][..], &frame, &[0xbe, 0xef]].concat();
+        for place in GRAPH_PLACES {
+            let want = frame_at(&inner, place);
+            st.states += 1;
+            st.transitions += 2;
+            st.validated += 2;
+            match encode_at(&z, place) {
+                Out::Ok(b) if b == want => {}
+                o => {
+                    bad(st, &format!("block-inside-a-record-misplaced placement={place:?}"), json!({"library": format!("{o:?}").chars().take(300).collect::<String>(), "prescribed": hex(&want[..want.len().min(64)])}));
+                    return;
+                }
+            }
+            match decode_at::<Zipped>(&want, place) {
+                Out::Ok(back) if back == z => st.bump("block-inside-a-record"),
+                o => {
+                    bad(st, &format!("block-inside-a-record-read-back placement={place:?}"), json!({"result": format!("{o:?}").chars().take(200).collect::<String>()}));
+                    return;
+                }
+            }
+        }
+    }
     if it.idx % 97 == 3 {
         st.sample(json!({"content": hex(&d[..d.len().min(16)]), "content_len": d.len()}));
     }
@@ -568,7 +668,7 @@ pub fn run_c16(tier: &str, only: Option<String>) -> i32 {
             return 2;
         }
     }
-    run.rule = "contents: all strings of length <= 6 over {00,01,ff}, runs and a fixed incompressible sequence of length 2^k, text repetitions, lengths around the varint edges; levels 0-9; three sinks x three sources; frame parsed independently (both length fields true, raw DEFLATE inflated by Python zlib); sentinel after the frame; faults per frame: every truncation, every single-bit flip, boundary rewrites of both header fields (allocation monitor)".into();
+    run.rule = "contents: all strings of length <= 6 over {00,01,ff}, runs and a fixed incompressible sequence of length 2^k, text repetitions, lengths around the varint edges; levels 0-9; three sinks x three sources; frame parsed independently (both length fields true, raw DEFLATE inflated by Python zlib); sentinel after the frame; faults per frame: every truncation, every single-bit flip, boundary rewrites of both header fields (allocation monitor); every content <= 4 KiB also written by a user codec (id ++ block ++ tail) at top level and as a field of a record through the real Adt API (plain record, chunk 0 and chunk 1 of an evolved record): bytes == record framing around the same frame, read back identical with intact siblings".into();
     run.bounds = json!({"max_content": if thorough { "1 MiB" } else { "64 KiB" }, "fault_enumeration_frame_cap": if thorough { 8192 } else { 300 }});
     run.assumptions = vec!["DEFLATE itself (flate2 / miniz_oxide) is cross-checked against zlib on the corpus, not proved".into()];
     run.finish()
@@ -730,6 +830,60 @@ pub fn run_c17(tier: &str, only: Option<String>) -> i32 {
             st.nontrivial += 1;
         }
     }
+    // (3b) every evolution attribute list a user could write, up to a length, over the four step
+    // kinds and three names (a plain declared field, a declared optional field, a name that is not
+    // a field): legal or not, encoding is Ok or Err and never unwinds. Bytes are compared with the
+    // model only where the model defines them (legal histories are C03's job).
+    {
+        let kinds: [fn(String) -> Step; 4] = [Step::Added, Step::MadeOptional, Step::Removed, Step::MadeTransient];
+        let names = ["a", "n0", "nope"];
+        let mut alphabet: Vec<Step> = Vec::new();
+        for k in kinds {
+            for n in names {
+                alphabet.push(k(n.to_string()));
+            }
+        }
+        let depth = if thorough { 4 } else { 3 };
+        let mut lists: Vec<Vec<Step>> = vec![vec![]];
+        let mut frontier: Vec<Vec<Step>> = vec![vec![]];
+        for _ in 0..depth {
+            let mut next = Vec::new();
+            for p in &frontier {
+                for a in &alphabet {
+                    let mut q = p.clone();
+                    q.push(a.clone());
+                    next.push(q);
+                }
+            }
+            lists.extend(next.iter().cloned());
+            frontier = next;
+        }
+        let lists: Vec<Vec<Step>> = lists.into_iter().filter(|l| run.selected(&format!("metaenum:{l:?}"))).collect();
+        let ms = par_items(&lists, Some(bridge::rt::hang_limit()), &|_| {}, &|steps: &Vec<Step>, st: &mut Stats| {
+            let rd = RecordDescr {
+                name: "MetaE".into(),
+                steps: steps.clone(),
+                fields: vec![
+                    FieldDescr { name: "a".into(), ty: Ty::U8, transient: None, is_option: false, default: None },
+                    FieldDescr { name: "n0".into(), ty: Ty::Opt(Box::new(Ty::U8)), transient: None, is_option: true, default: Some(Val::Opt(None)) },
+                ],
+            };
+            let ty = Ty::Record(Arc::new(rd));
+            for v in [Val::Rec(vec![Val::U(1), Val::Opt(Some(Box::new(Val::U(2))))]), Val::Rec(vec![Val::U(0), Val::Opt(None)])] {
+                st.states += 1;
+                st.transitions += 1;
+                st.validated += 1;
+                let o = dyn_encode(&ty, &v);
+                if o.is_panic() {
+                    st.violate(format!("C17 metadata enumeration outcome=Panic steps={}", steps.len()), format!("metaenum:{steps:?}"), json!({"steps": format!("{steps:?}"), "value": val_json(&v), "library": format!("{o:?}").chars().take(300).collect::<String>()}));
+                    return;
+                }
+                st.bump(&format!("metadata-enumeration:{}", o.class()));
+                st.nontrivial += 1;
+            }
+        });
+        st.merge(ms);
+    }
     // (4) every value of every type of the universe encodes to Ok or to the documented error
     let its = crate::p_values::items(&u, &run, &|_e: &Entry| true);
     let vs = par_items(&its, Some(bridge::rt::hang_limit()), &|_| {}, &|it: &crate::p_values::Item, st: &mut Stats| {
@@ -764,7 +918,7 @@ pub fn run_c17(tier: &str, only: Option<String>) -> i32 {
     st.merge(vs);
     let _ = guarded_plain(|| ());
     run.stats = st;
-    run.rule = "every Unicode scalar value (1 112 064) through both entry points; zero-width containers and exact-size iterators of length 0, 1, 2^20, 2^31, 2^31+1, 2^32, usize::MAX (thorough: 2^31-1, a 4 GiB+1 Vec<u8>, a 2 GiB String); evolution metadata naming unknown fields through the real Adt machinery; every value of every type of the universe (thorough: including the 127/128/129-field and 254-step boundary declarations): Ok or the documented Err variant, never an unwind".into();
+    run.rule = "every Unicode scalar value (1 112 064) through both entry points; zero-width containers and exact-size iterators of length 0, 1, 2^20, 2^31, 2^31+1, 2^32, usize::MAX (thorough: 2^31-1, a 4 GiB+1 Vec<u8>, a 2 GiB String); evolution metadata naming unknown fields through the real Adt machinery; all evolution step lists of length <= 3 (thorough 4) over {FieldAdded, FieldMadeOptional, FieldRemoved, FieldMadeTransient} x {a plain field, an optional field, an undeclared name}, legal or not: never an unwind; every value of every type of the universe (thorough: including the 127/128/129-field and 254-step boundary declarations): Ok or the documented Err variant, never an unwind".into();
     run.bounds = json!({"chars": "all scalar values", "universe_thorough": universe::THOROUGH});
     run.finish()
 }
